@@ -106,7 +106,19 @@ def stmt(p, e, rng):
     out = []
     def add(clause, what, **kw):
         out.append({"key": {"clause": clause}, "what": what, "input": dict(p=list(p), E=e, **kw)})
-    sc = float(b.space_charge_correction(e, 0.0))
+    try:
+        with np.errstate(all="ignore"):
+            sc = float(b.space_charge_correction(e, 0.0))
+    except Exception as ex:
+        # in-domain (r = 0 lies in [0, r_d]); whether the beam is below the virtual-cathode limit is decided by the documented iteration
+        new, old, it = 1.0, 0.0, 0
+        with np.errstate(all="ignore"):
+            while (new - old) / new > 1e-6 and it < 10000:
+                ce = e + new
+                new, old = float(b.characteristic_potential(ce)) * (2 * np.log(float(b.herrmann_radius(ce)) / r_d) - 1), new; it += 1
+        if np.isfinite(new) and it < 10000:
+            add("raises_in_domain", f"space_charge_correction(E={e!r}, r=0) raises {type(ex).__name__} ({str(ex)[:80]}) although the documented iteration converges to {new!r} V in {it} passes")
+        return out
     if np.isfinite(sc):
         F = float(b.characteristic_potential(e + sc) * (2 * np.log(b.herrmann_radius(e + sc) / r_d) - 1))
         if abs(sc - F) > 1e-5 * abs(sc):
